@@ -122,6 +122,12 @@ def boundary_cases(rng, thorough):
                 "a" + " of a" * (n // 5), "1" + " -> m" * (n // 5), "degC " * (n // 5) + "1", "1" + " mod 2" * (n // 6), "m" + " m" * (n // 2),
                 "1" + ";1" * (n // 2), "1 -> " + "m;" * (n // 3) + "m", "x = " * (n // 4) + "1", "'" * n, "#" * n, "\\" * n, "1e" * (n // 2),
                 "0x" + "F" * (n - 2), "1" * n, "1." + "1" * (n - 2), "1e-" + "9" * 20, "." * n, "H" + "2O" * (n // 2), "C" * n, "[" * n, "{" * n]
+    # conversion targets whose constant is a float that is infinite, undefined or zero
+    for fl in ["2^0.5", "4^0.3", "(-8)^(1|3)"]:
+        for tail in ["* 1e400", "/ 1e-400", "* 0", "* 1e400 * 0", "- %s" % fl, "* 1e400 - %s * 1e400" % fl]:
+            t = "%s %s" % (fl, tail)
+            out += ["1 -> %s" % t, "1 m -> %s m" % t, "1 -> 5 mod (%s)" % t, "1 kg water -> %s liter" % t, "1 -> 1/(%s)" % t, "1 -> (%s) ft/ft" % t,
+                    "3 -> 2 + %s" % t, "1 -> (%s)^2" % t]
     # arithmetic between substances (amounts of equal, different and no dimensionality; formulas)
     subs = ["water", "sodium", "(1 m sodium)", "(1 s potassium)", "(2 kg gold)", "(2 sodium)", "H2O", "NaCl", "(3 mol water)", "(0 water)"]
     for a in subs:
@@ -146,10 +152,12 @@ def boundary_cases(rng, thorough):
 
 
 
-def decide(run, texts, leg, shards, timeout_ms, ctx="bundled"):
+def decide(run, texts, leg, shards, timeout_ms, ctx="bundled", extra=None, ans=False):
+    """extra: per-input job fields (a clock setting, clear_ans); ans: the context remembers the previous answer (histories)"""
     import time
     t0 = time.time()
-    res = evalkit.run_eval([{"qs": t, "render": True} for t in texts], ctx=ctx, timeout_ms=timeout_ms, shards=shards, tag="c04" + leg)
+    jobs = [dict({"qs": t, "render": True}, **(extra[i] if extra else {})) for i, t in enumerate(texts)]
+    res = evalkit.run_eval(jobs, ctx=ctx, timeout_ms=timeout_ms, shards=shards, tag="c04" + leg, ans=ans)
     events = []
     for r, t in zip(res, texts):
         if "crash" in r:
@@ -257,6 +265,34 @@ def run(tier, seed):
         ["1 -> hex", "1|3 -> digits 5", "now", "units for m", "factorize m", "search m", "ans", "1 m", "m", "'a' 'b' -> 'a'", "3 'a' -> 'b';'a'"]
     decide(run, list(dict.fromkeys(foreign)), "foreign-context", 2, tmo, ctx="empty")
     run.sample({"leg": "foreign-context", "input": "25 -> degC"})
+    # histories: what an earlier answer (zero, NaN, infinite, a unit to an enormous power) does in every position of the next query
+    hist, hextra = [], []
+
+    def seq(*qs):
+        for k, q in enumerate(qs):
+            hist.append(q)
+            hextra.append({"clear_ans": True} if k == 0 else {})
+    for first in ["0", "0 m", "0 s", "ln(-1)", "exp(1000)", "0 - exp(1000)", "-1 m", "1e-400", "1|3"]:
+        seq(first, "5 m -> ft, ans", "1 -> ans", "1 m -> ans", "1 m -> ans;ft", "1 hour -> hour;ans", "5 -> 1;ans", "1 mod ans", "1 / ans", "2 ^ (1/ans)",
+            "1 << ans", "ans ^ ans", "now + ans s", "#2020-01-01# - ans", "ans -> digits 5", "units for ans", "factorize ans", "1 -> ans ft", "hypot(ans, ans)",
+            "3 m -> 2 ans", "ans mod ans", "sqrt(ans)", "ans degC", "1 -> ans^0.5")
+    for u in ["m", "'q'", "(m/s)", "kg"]:
+        for k in ["2147483647", "-2147483647", "1000000000"]:
+            seq(*(["%s^%s" % (u, k)] + ["ans ans"] * 36 + ["1/ans", "ans^2", "sqrt(ans)", "ans -> m", "ans / ans", "ans + 1", "units for ans", "factorize ans", "ans"]))
+    decide(run, hist, "history", 1, tmo, extra=hextra, ans=True)
+    run.sample({"leg": "history", "input": ["0 m", "5 m -> ft, ans"]})
+    # time-of-day literals in named zones on the days those zones change their offset (the context clock set to that day)
+    dst, dextra = [], []
+    for zone, days in [("Pacific/Auckland", [(2026, 9, 26), (2026, 4, 4)]), ("America/New_York", [(2026, 3, 8), (2026, 11, 1)]),
+                       ("Europe/London", [(2026, 3, 29), (2026, 10, 25)]), ("Australia/Lord_Howe", [(2026, 10, 3), (2026, 4, 4)])]:
+        for (y, mo, d) in days:
+            for hh in range(0, 4):
+                for mm in (0, 30):
+                    for form in ("#%02d:%02d %s#", "#%02d:%02d:30 %s#", "now - #%02d:%02d %s#"):
+                        dst.append(form % (hh, mm, zone))
+                        dextra.append({"clock": [y, mo, d, 14, 0, 0]})
+    decide(run, dst, "dst-days", 2, tmo, extra=dextra)
+    run.sample({"leg": "dst-days", "input": dst[5], "clock": dextra[5]["clock"]})
     uni = [rand_unicode(rng) for _ in range(20000 if thorough else 2000)]
     decide(run, uni, "unicode", shards, tmo)
     run.sample({"leg": "unicode", "input": uni[0]})
